@@ -27,6 +27,7 @@ import CtyModel.Lemmas.d11bColl
 import CtyModel.Lemmas.d11bNum
 import CtyModel.Lemmas.d11bSeq
 import CtyModel.Lemmas.d11bStr
+import CtyModel.Lemmas.d11bIndex
 import CtyModel.Props.C10
 namespace CtyModel
 namespace C11
@@ -644,6 +645,25 @@ theorem call_total_compact (nfc : String → Bool) (E : Stdlib.Env) (args : List
     (∀ w, (call Stdlib.compactSpec Stdlib.compactType (Stdlib.compactImpl E) args).1 ≠ .err (.panicError w)) :=
   Stdlib.call_total_compact E args hargs
 
+/-- **`chunklist` is total** (collection.go `ChunklistFunc`: marked list and size, negative / zero / fractional /
+huge sizes, empty lists).  The final `cty.ListVal(output)` would panic on an empty slice: it never is, because
+the last element always closes a chunk (`Stdlib.chunkLoop_good`). -/
+theorem call_total_chunklist (nfc : String → Bool) (E : Stdlib.Env) (args : List Value) (hargs : ∀ a ∈ args, a.WF nfc = true) :
+    (∀ w, (call Stdlib.chunklistSpec Stdlib.chunklistType (Stdlib.chunklistImpl E) args).1 ≠ .panic w) ∧
+    (∀ w, (call Stdlib.chunklistSpec Stdlib.chunklistType (Stdlib.chunklistImpl E) args).1 ≠ .err (.panicError w)) :=
+  Stdlib.call_total_chunklist E args hargs
+
+/-- **`index` is total** (collection.go `IndexFunc`; declares no `RefineResult`).  Its `Impl` makes a NESTED protocol
+call — `HasIndex(args[0], args[1])` is `HasIndexFunc.Call` — and reads the answer with `.True()`, which panics on an
+unknown or marked boolean: the nested call answers a KNOWN boolean on the arguments `index` is handed
+(`Stdlib.hasIndex_call_known`, `Stdlib.hasIndexU_unk`), `Index` is then applied only where `HasIndex` said true, and
+its result has the type the `Type` callback predicted from the VALUE of the key (`gocty.FromCtyValue` and the key
+arithmetic of `Index` read the same whole number: `Stdlib.keyIndex_of_fromCtyInt`). -/
+theorem call_total_index (nfc : String → Bool) (args : List Value) (hargs : ∀ a ∈ args, a.WF nfc = true) :
+    (∀ w, (call Stdlib.indexSpec Stdlib.indexType Stdlib.indexImpl args).1 ≠ .panic w) ∧
+    (∀ w, (call Stdlib.indexSpec Stdlib.indexType Stdlib.indexImpl args).1 ≠ .err (.panicError w)) :=
+  Stdlib.call_total_index args hargs
+
 /-- **`range` is total** (sequence.go `RangeFunc`: one, two or three numbers; zero, infinite, fractional steps;
 infinite start or end; more than 1024 values — ordinary errors or a list) -/
 theorem call_total_range (nfc : String → Bool) (E : Stdlib.Env) (args : List Value) (hargs : ∀ a ∈ args, a.WF nfc = true) :
@@ -731,7 +751,8 @@ theorem d11b_specs_are_table_entries :
       | _, _ => false) = true ∧
     (D11b.collTable.all fun e =>
       match Stdlib.byName e.1, Std.find? e.2, Std.syntax? e.2 with
-      | some f, some s, some sy => D11b.specMatches f.spec s && (sy.refine == "refineNonNull") && f.spec.refine.isSome
+      | some f, some s, some sy => D11b.specMatches f.spec s && ((sy.refine == "refineNonNull") == f.spec.refine.isSome) &&
+          ((sy.refine == "none") == f.spec.refine.isNone)
       | _, _, _ => false) = true := by
   refine ⟨?_, ?_, ?_⟩ <;> decide
 
